@@ -34,6 +34,7 @@ class PrefixSid(Attribute):
     ID: int = Attribute.CODE.BGP_PREFIX_SID
     FLAG: int = Attribute.Flag.TRANSITIVE | Attribute.Flag.OPTIONAL
     CACHING: ClassVar[bool] = True
+    DISCARD: ClassVar[bool] = True  # RFC 8669 section 6: a malformed BGP Prefix-SID attribute is discarded
     TLV: ClassVar[int] = -1
 
     # Registered subclasses we know how to decode
